@@ -310,6 +310,9 @@ pub enum WFaultAt {
     Call(usize),
     /// the writer accepts exactly k bytes (shortening the write that crosses k), then fails
     Bytes(usize),
+    /// only the n-th `write` call fails (a transient fault): later calls are accepted again, so
+    /// anything the serializer still writes after the failed call breaks the prefix
+    CallOnce(usize),
 }
 #[derive(Clone, Copy, Debug, Serialize, Deserialize, PartialEq, Eq, Hash)]
 pub enum WMode {
@@ -374,6 +377,11 @@ impl Write for FaultyWriter {
                 WFaultAt::Call(c) => {
                     if n == c {
                         self.failed = true;
+                        return self.fail();
+                    }
+                }
+                WFaultAt::CallOnce(c) => {
+                    if n == c {
                         return self.fail();
                     }
                 }
